@@ -73,7 +73,8 @@ CHECKS.update({
         'text': 'Every multiset of <=3 (thorough 4) completion instants from a 14-point boundary menu x every window '
         '(after,before) in (menu+None)^2 x limit {None,1,2} through the real chronicle.append/find; every sequence '
         'of <=3 appends over 18 entry kinds through the real schedule.complete with journal files re-read after '
-        'each; the same windows through fe.api.schedule.succeeded/failed.',
+        'each, and every sequence of <=2 over 48 kinds varying the scheduler state at reply time (target in doing / '
+        'withdrawn / node dequeued / __all__) and run id 0; the same windows through fe.api.schedule.succeeded/failed.',
         'note': 'instants are timezone-aware UTC; after+limit only checked for subset/limit/order; both readings '
         'accepted for after+before+limit; wall clock replaced by a datetime subclass shim inside chronicle and schedule.',
     },
@@ -87,7 +88,8 @@ CHECKS.update({
         'sharing (incl. one package with prefix-colliding names a, ab, abc) x optional feedback reference x both '
         'factory styles, plus hand-picked deep shapes, is written as a real package, scanned by pl.scan and built by '
         'pl.dag.Construct; node sets, edge sets (value / state-vector / algorithm / task level), one object per '
-        'tag, parents, ancestry (transitive closure) and the feedback map are compared with the description.',
+        'tag, parents, ancestry (transitive closure) and the feedback map are compared with the description; deep and '
+        'canonical shapes also under a two-component base package.',
         'note': 'graphviz rendering (pydot.Dot.write_svg) is stubbed; self loops created by trimming inside one package '
         'are ignored; node level is not checked (sort heuristic only).',
     },
@@ -98,13 +100,15 @@ CHECKS.update({
         'tuple order, trichotomy, antisymmetry, transitivity. (b) engines x single-element bumps x current snapshot x '
         'per-algorithm persisted history {none, base, bumped, both} x target sets x recording path (pipeline side / '
         'worker side over the wire) through real pl.version.record, db.versions, pl.version.current and '
-        'schedule.build: exactly the owners of a non-persisted version are queued, for exactly the known targets.',
+        'schedule.build: exactly the owners of a non-persisted version are queued, for exactly the known targets; incl. an '
+        'algorithm with a key-less state vector.',
         'note': 'shelve back end; one element bumped per software snapshot.',
     },
     'C16': {
         'level': 'exploration', 'design_ref': 'DESIGN.md section 4 (C16)',
         'technique': 'exhaustive enumeration of generated valid and single-rule-broken packages against the expected verdict',
-        'text': 'Generated packages on disk in both factory styles: every non-empty mix of factory kinds (15) x 3 reference '
+        'text': 'Generated packages on disk in three factory styles (deprecated bots, self-registering, self-registering with '
+        'hand-written factories), verdict = _verify(_scan()) and the scan must list every package: every non-empty mix of factory kinds (15) x 3 reference '
         'patterns and every rule-conforming DAG engine must be accepted by tools.compliant._verify and then build '
         'and schedule without error; each mix with exactly one of 28 breakage kinds at every applicable algorithm / '
         'factory position must be rejected; the exit status of python -m dawgie.tools.compliant is compared with the '
@@ -162,7 +166,8 @@ CHECKS.update({
         'one second (all relative poll phases). Every state: at most one owner, lock bit <=> an owner exists, "lock is '
         'yours" sent only in the step the connection acquired it, a dropped holder frees the lock in the same step, a '
         'dropped waiter never acquires and its poll timer dies, a live poll on a free lock is granted; from every state '
-        'with a free lock and a live waiter a grant occurs within one poll period.',
+        'with a free lock and a live waiter a grant occurs within one poll period. The spaces are explored under three '
+        'acquire-label schemes: distinct labels, one label for all clients, empty / None labels.',
         'note': 'at most 2 (thorough 3) connections per client per history; clients release only after being told they '
         'hold the lock (as comms.acquire/release do); the client side of the protocol is exercised by every store check '
         '(C06-C08, C15, C17) through the loopback.',
@@ -175,7 +180,9 @@ CHECKS.update({
         'echo signature / wrong echo / short length, each followed by coalesced application bytes): for all i<j feeding '
         'B[:i] then B[i:j] must give the state of feeding B[:j] at once, hence every chunking delivers what whole '
         'delivery does; whole delivery equals the reference; nothing is delivered before the last handshake byte; failed '
-        'handshakes close with nothing delivered. Reduced streams: all 2^(n-1) chunkings (db: all chunkings with <=3 cuts).',
+        'handshakes close with nothing delivered. Reduced streams: all 2^(n-1) chunkings (db: all chunkings with <=3 cuts). '
+        'Client side: the blocking readers message.receive, comms.acquire/release and Connector.__do on 5 multi-message '
+        'streams under every 1- and 2-cut chunking of a socket whose recv(n) never returns more than the arrived chunk.',
         'note': 'gnupg replaced by a stand-in signature scheme (the phase machine is the subject); after loseConnection no more '
         'bytes are fed (Twisted stops reading); real TLS sockets are not runnable here.',
     },
@@ -186,7 +193,9 @@ CHECKS.update({
         'the real fe._static on a scratch tree with symlinks and tagged outside files: no opened file resolves outside '
         'the roots, no outside token in the reply. (b) every DynamicContent found by walking the route tree x 4 methods x '
         'certificates configured x certificate presented x 5 access hooks: without certificate no run/reset/submit/'
-        'snapshot handler runs; a raising or unresolvable hook denies everything; legitimate callers are served.',
+        'snapshot handler runs; a raising or unresolvable hook denies everything; legitimate callers are served. '
+        '"Certificates configured" also through the real security._tls_initialize on 5 key-directory layouts with real '
+        'self-signed certificates.',
         'note': 'handlers are replaced by recorders while the access decision is exercised; request.uri is not percent-decoded '
         '(as Twisted delivers it).',
     },
@@ -205,7 +214,8 @@ CHECKS.update({
         'background thread in every order. Every state change is an edge of state.dot (parsed independently), archiving '
         'returns to where it came from, at rest the state is running or gitting with transitioning active, active is '
         'declared only at rest in running; in every state every trigger the dot file forbids must raise MachineError and '
-        'leave everything identical, and draining the outstanding background steps must reach rest.',
+        'leave everything identical, and draining the outstanding background steps must reach rest. Reload tier: real '
+        'FSM._reload + RollbackImporter on a generated package for every sequence of <=2 (3) changesets out of 5 kinds.',
         'note': _FSM_NOTE + '; bounds: <=2 submissions, <=1 new-data event, <=1 user reset per history (thorough: more).',
     },
     'C12': {
@@ -215,8 +225,9 @@ CHECKS.update({
         'real submit Process steps + a work queue driven only through real scheduler/farm calls. At every update_trigger '
         'call the condition of the strongest priority submitted since the last reset holds at that instant, the call is '
         'accepted, at most one per reload cycle; refused submissions change nothing; from every state with an accepted '
-        'submission outstanding, draining the work and running every waiter reaches update_trigger.',
-        'note': _FSM_NOTE + '; bounds: (2 submissions, 1 run request, 2 reload cycles) and (1 submission, 3 run requests).',
+        'submission outstanding, draining the work and running every waiter reaches update_trigger. fe.api.cmd_reset is '
+        'an event of one configuration (reset = reload now; a refused reset changes nothing).',
+        'note': _FSM_NOTE + '; bounds: (2 submissions, 1 run request, 2 reload cycles), (1 submission, 3 run requests) and (2 submissions, 1 run request, 1 cycle, 1 reset).',
     },
 })
 
@@ -230,14 +241,17 @@ CHECKS.update({
         'at send time, still connected, holding no task, while active; status polls and registrations are answered '
         'correctly; nothing but abort responses is written while inactive; a reload clears the farm; message fields '
         '(factory, target, run 0 for regressions) match the released unit; the run id is the one the triggering event '
-        'carried, else db.next() drawn exactly once per released algorithm.',
+        'carried, else db.next() drawn exactly once per released algorithm; queue conservation at every dispatch '
+        '(released + queued = sent + queued); an engine whose algorithms ask for cloud placement (where() / history hint) '
+        'on a farm without cloud agency; exceptions out of dispatch are violations.',
         'note': _SCHED_NOTE + '; cloud (AWS) placement is out of reach; db.next() is a harness constant in this tier '
         '(strict monotonicity of next() against stored runs is decided in C08).',
     },
     'C20': {
         'level': 'exploration', 'design_ref': 'DESIGN.md section 4 (C20)',
         'technique': 'exhaustive enumeration of event specifications x clock instants; bounded exhaustive exploration of firing/dispatch/reply/reload interleavings over 3 periods under a virtual clock',
-        'text': '(a) 114 specifications (dow 0..6, dom 1..31, 3 times of day) + date specs at every hour of 2023-2028 and +-1 s '
+        'text': '(gate) all 288 MOMENT field combinations through the real compliant.rule_10, every accepted one through '
+        '_delay at 38 instants. (a) 114 specifications (dow 0..6, dom 1..31, 3 times of day) + date specs at every hour of 2023-2028 and +-1 s '
         'around every midnight through the real schedule._delay: never raises, designates the specified moment, no '
         'further than one period ahead. (b) real periodics/defer/complete + farm on the virtual reactor and clock, 7 '
         'engines x 5 boot instants, all interleavings of timer / dispatch / reply / reload over a 3-period horizon: a '
